@@ -94,6 +94,25 @@ func listCase(paths []string, modes []zipref.Mode, goMod string) (msg string, re
 	return
 }
 
+// sizeCase checks CheckFiles on two files with declared sizes s1, s2 (negative: Lstat reports a negative size)
+// whose content is gmData (which matters for a root go.mod).
+func sizeCase(n1, n2 string, s1, s2 int64, gmData string) (msg string, nontrivial bool) {
+	rf := []zipref.File{{Path: n1, Size: s1, Data: gmData}, {Path: n2, Size: s2, Data: gmData}}
+	zf := []modzip.File{memfile.File{P: n1, Data: []byte(gmData), Declared: s1}, memfile.File{P: n2, Data: []byte(gmData), Declared: s2}}
+	if s1 < 0 {
+		zf[0] = negSize{memfile.File{P: n1, Data: []byte(gmData), Declared: 0}}
+	}
+	if s2 < 0 {
+		zf[1] = negSize{memfile.File{P: n2, Data: []byte(gmData), Declared: 0}}
+	}
+	rep := zipref.Classify(rf)
+	cf, err := modzip.CheckFiles(zf)
+	if zipx.Join(cf.Valid) != zipx.Join(rep.Valid) || zipx.Join(zipx.PathsOf(cf.Invalid)) != zipx.Join(rep.Invalid) || (cf.SizeError != nil) != rep.SizeError || (err == nil) != rep.OK() {
+		msg = fmt.Sprintf("CheckFiles with declared sizes %s=%d %s=%d (content %q): valid %q invalid %q sizeErr=%v err=%v; reference valid %q invalid %q sizeErr=%v", n1, s1, n2, s2, gmData, cf.Valid, zipx.PathsOf(cf.Invalid), cf.SizeError != nil, err, rep.Valid, rep.Invalid, rep.SizeError)
+	}
+	return msg, !rep.OK()
+}
+
 func sorted(ss []string) string {
 	c := append([]string(nil), ss...)
 	sort.Strings(c)
@@ -506,35 +525,32 @@ func Run(r *fw.Run) {
 
 	// declared sizes
 	sizes := []int64{0, 1, zipref.MaxGoMod, zipref.MaxGoMod + 1, zipref.MaxZipFile / 2, zipref.MaxZipFile/2 + 1, zipref.MaxZipFile, zipref.MaxZipFile + 1, -1}
-	names := []string{"go.mod", "LICENSE", "a", "sub/LICENSE"}
+	// (the go version that selects the vendor rules is read from the root go.mod whatever its declared size)
+	names := []string{"go.mod", "LICENSE", "a", "sub/LICENSE", "vendor/modules.txt", "pkg/vendor/v.go"}
 	l := fw.NewLocal()
-	for _, n1 := range names {
-		for _, n2 := range names {
-			if n1 == n2 {
-				continue
-			}
-			for _, s1 := range sizes {
-				for _, s2 := range sizes {
-					rf := []zipref.File{{Path: n1, Size: s1, Data: zipx.GoMods[0]}, {Path: n2, Size: s2, Data: zipx.GoMods[0]}}
-					zf := []modzip.File{memfile.File{P: n1, Data: []byte(zipx.GoMods[0]), Declared: s1}, memfile.File{P: n2, Data: []byte(zipx.GoMods[0]), Declared: s2}}
-					if s1 < 0 {
-						zf[0] = negSize{memfile.File{P: n1, Data: []byte("x"), Declared: 0}}
-					}
-					if s2 < 0 {
-						zf[1] = negSize{memfile.File{P: n2, Data: []byte("x"), Declared: 0}}
-					}
-					rep := zipref.Classify(rf)
-					cf, err := modzip.CheckFiles(zf)
-					l.States++
-					l.Execs++
-					l.Transitions++
-					if !rep.OK() {
-						l.Nontrivial++
-					}
-					l.Outcomes[fmt.Sprintf("size:ok=%v", rep.OK())]++
-					if zipx.Join(cf.Valid) != zipx.Join(rep.Valid) || zipx.Join(zipx.PathsOf(cf.Invalid)) != zipx.Join(rep.Invalid) || (cf.SizeError != nil) != rep.SizeError || (err == nil) != rep.OK() {
-						c := caseT{Kind: "size", Paths: q([]string{n1, n2}), Sizes: []int64{s1, s2}}
-						r.Violation(c.key(), fmt.Sprintf("CheckFiles with declared sizes %s=%d %s=%d: valid %q invalid %q sizeErr=%v err=%v; reference valid %q invalid %q sizeErr=%v", n1, s1, n2, s2, cf.Valid, zipx.PathsOf(cf.Invalid), cf.SizeError != nil, err, rep.Valid, rep.Invalid, rep.SizeError), c)
+	for _, gmData := range []string{zipx.GoMods[0], zipx.GoMods[1], zipx.GoMods[2]} {
+		for _, n1 := range names {
+			for _, n2 := range names {
+				if n1 == n2 {
+					continue
+				}
+				if gmData != zipx.GoMods[0] && n1 != "go.mod" && n2 != "go.mod" {
+					continue // the other go.mod contents matter only when a go.mod is in the list
+				}
+				for _, s1 := range sizes {
+					for _, s2 := range sizes {
+						msg, nt := sizeCase(n1, n2, s1, s2, gmData)
+						l.States++
+						l.Execs++
+						l.Transitions++
+						if nt {
+							l.Nontrivial++
+						}
+						l.Outcomes[fmt.Sprintf("size:ok=%v", !nt)]++
+						if msg != "" {
+							c := caseT{Kind: "size", Paths: q([]string{n1, n2}), Sizes: []int64{s1, s2}, GoMod: strconv.QuoteToASCII(gmData)}
+							r.Violation(c.key(), msg, c)
+						}
 					}
 				}
 			}
@@ -665,7 +681,11 @@ func Replay(r *fw.Run, raw json.RawMessage) {
 			r.Violation(c.key(), msg, c)
 		}
 	case "size":
-		r.Note("size cases are re-run by the full check")
+		if len(paths) == 2 && len(c.Sizes) == 2 {
+			if msg, _ := sizeCase(paths[0], paths[1], c.Sizes[0], c.Sizes[1], gm); msg != "" {
+				r.Violation(c.key(), msg, c)
+			}
+		}
 	default:
 		var ms []zipref.Mode
 		for _, m := range c.Modes {
